@@ -241,6 +241,7 @@ def runMonitor (cfg : Cfg) (tr : List Step) (m : String) : String :=
     else if m == "c19-accounting" then some (Afkak.Monitor.C19.accounting cfg tr)
     else if m == "c19-dispatch" then some (Afkak.Monitor.C19.dispatchIff cfg tr)
     else if m == "c19-cancel" then some (Afkak.Monitor.C19.cancel cfg tr)
+    else if m == "c19-detach" then some (Afkak.Monitor.C19.detach cfg tr)
     else if m == "c19-stop" then some (Afkak.Monitor.C19.stop cfg tr)
     else none
   match v with
